@@ -891,3 +891,30 @@ Proof. repeat split; vm_compute; reflexivity. Qed.
 (* 8 *)
 Example ex_closed : trun cfg0 0 TClosed [(1, IConnect 5); (2, IIdentify); (3, IRequest); (4, IPongOk)] = (TClosed, []).
 Proof. vm_compute. reflexivity. Qed.
+
+(* A pre-authentication frame that is answered without a phase change leaves the authentication deadline
+   where it was: the connection is still closed with TIMEOUT at exactly d. *)
+Lemma C20_refused_keeps_deadline :
+  forall (c : tcfg) (t0 d hb t1 t2 : N),
+    t1 < d -> d <= t2 ->
+    tstep c t0 (TConnected d hb) t1 IRefused = (TConnected d hb, []) /\
+    trun c t0 (TConnected d hb) [(t1, IRefused); (t2, IObserve)] = (TClosed, [ETimeout d]).
+Proof.
+  intros c t0 d hb t1 t2 H1 H2.
+  assert (A1 : forall f, advance (S f) (TConnected d hb) t1 = (TConnected d hb, [])).
+  { intros f. cbn [advance]. destruct (d <=? t1) eqn:E; [apply N.leb_le in E; lia | reflexivity]. }
+  assert (A2 : forall f, advance (S f) (TConnected d hb) t2 = (TClosed, [ETimeout d])).
+  { intros f. cbn [advance]. destruct (d <=? t2) eqn:E; [reflexivity | apply N.leb_gt in E; lia]. }
+  assert (F : forall span, exists f, fuel_for c span = S f).
+  { intros span. unfold fuel_for. exists (N.to_nat (span / N.max (hb_min c) 1) + 3)%nat. lia. }
+  assert (S1 : tstep c t0 (TConnected d hb) t1 IRefused = (TConnected d hb, [])).
+  { unfold tstep. destruct (F (t1 - t0)) as [f Hf]. rewrite Hf, A1. reflexivity. }
+  split; [exact S1 |].
+  cbn [trun]. rewrite S1.
+  unfold tstep. destruct (F (t2 - t0)) as [f Hf]. rewrite Hf, A2. reflexivity.
+Qed.
+
+Example C20_refused_keeps_deadline_example :
+  trun {| connect_to := 1000; auth_to := 2000; hb_min := 1000; hb_max := 4000 |} 0
+       (TConnected 2050 4000) [(300, IRefused); (900, IRefused); (2060, IObserve)] = (TClosed, [ETimeout 2050]).
+Proof. vm_compute. reflexivity. Qed.
